@@ -194,7 +194,15 @@ fn main() {
     emit(&report, out.as_deref());
 }
 
+/// Remove the scratch directories C18 / C19 create under the system temp dir.
+fn cleanup_temp() {
+    for prefix in ["replay-c18-", "replay-c19-"] {
+        let _ = std::fs::remove_dir_all(std::env::temp_dir().join(format!("{prefix}{}", std::process::id())));
+    }
+}
+
 fn emit(j: &Json, out: Option<&str>) {
+    cleanup_temp();
     let mut text = j.to_text();
     text.push('\n');
     match out {
